@@ -317,3 +317,20 @@ def t_c04_pkginit() -> Iterator[Dict[str, Any]]:
             ops = flat(cls("K", body=body)) if scope == "class" else body
             yield project([mod("p", pkg=True), mod("a", 1, ops=flat(cls("A"))),
                            mod("q", 1, pkg=True, ops=ops), mod("t", 3, ops=flat(cls("T")))], "C04", pkginit=form, scope=scope)
+
+
+def t_c04_class_members() -> Iterator[Dict[str, Any]]:
+    """Names reached through a class: members inherited along the MRO (diamond: depth-first order differs from C3),
+       used as base classes and aliases in the same module and from another module."""
+    diamond = flat(cls("Root", body=flat(cls("Inner"), fn("m"))), cls("L", "Root"),
+                   cls("R", "Root", body=flat(cls("Inner"), fn("m"))), cls("D", "L", "R"))
+    for where in ("same", "other"):
+        use = flat(cls("E", "D.Inner"), alias("al", "D.m"), alias("inner", "D.Inner"))
+        if where == "same":
+            yield project([mod("p", pkg=True), mod("a", 1, ops=flat(diamond, use))], "C04", members="diamond", where=where)
+        else:
+            yield project([mod("p", pkg=True), mod("a", 1, ops=diamond),
+                           mod("b", 1, ops=flat(frm("a", "D", lvl=1), use))], "C04", members="diamond", where=where)
+    chain = flat(cls("Base", body=flat(cls("In"), var("v"))), cls("Mid", "Base"), cls("Leaf", "Mid"))
+    yield project([mod("p", pkg=True), mod("a", 1, ops=chain), mod("b", 1, ops=flat(frm("a", "Leaf", lvl=1), cls("X", "Leaf.In"), alias("vv", "Leaf.v")))],
+                  "C04", members="chain")
